@@ -56,6 +56,9 @@ VerdictObl ==
 \cup Viol("NUTATION_LONGITUDE_MAIN_TERM", Within(Ev.dpsi, Neg(Mul(Arcsec(1720, 2), Ev.sO)), Arcsec(35, 1)))
 \cup Viol("NUTATION_OBLIQUITY_MAIN_TERM", Within(Ev.deps, Mul(Arcsec(920, 2), Ev.cO), Arcsec(15, 1)))
 \cup Viol("DATE_FORMS_AGREE", \A i \in 1..Len(Ev.forms) : Within(Ev.forms[i], Ev.e0, Dec(1, 12)))
+\* the three functions called with the SAME argument form (incl. forms that carry a time of day): <<mean, nutation, true>>
+\cup Viol("TRUE_OBLIQUITY_IS_SUM_EVERY_FORM",
+          \A i \in 1..Len(Ev.sums) : Within(Ev.sums[i][3], Add(Ev.sums[i][1], Ev.sums[i][2]), Dec(1, 10)))
 
 VerdictCoarse ==
   IF Ev.inr = 0 THEN {} ELSE
